@@ -269,8 +269,15 @@ def c14(ctx):
     rng = random.Random(ctx.seed + 5)
     nexpr = 0
     flines, fmeta = [], []
-    for _ in range(300 if quick else 5000):
-        t = gen.rand_tree(rng, rng.choice([2, 3, 4]), allow_eq=rng.random() < 0.2)
+    twins = []
+    for txt in ("4 + 4", "(7 + 7) * x", "2 * 2.0", "12 = 12", "y * (5 - 5)", "x * x", "3 / 3 + x^x", "-(2 - 2)",
+                "(x + 1) * (x + 1)", "2x + 2x", "5 ^ 5 - y / y"):
+        try:
+            twins.append(core.to_tuple(core.parse_fresh(txt)))
+        except Exception:  # noqa
+            pass
+    for _k in range(300 if quick else 5000):
+        t = twins[_k] if _k < len(twins) else gen.rand_tree(rng, rng.choice([2, 3, 4]), allow_eq=rng.random() < 0.2)
         py = core.tuple_to_py(t)
         nexpr += 1
         want_in = core.inorder(py)
@@ -332,6 +339,41 @@ def c14(ctx):
             got = recv.find_type(X.VariableExpression)
             if [id(x) for x in got] != [id(x) for x in sub if isinstance(x, X.VariableExpression)]:
                 bad.append({"tree": core.tuple_str(t), "query": "find_type on a sub-node", "receiver": str(recv)})
+                break
+        # link queries on the real expression classes, judged by object identity (equal-looking
+        # siblings such as `4 + 4` or `x * x` are different nodes)
+        for o in want_in:
+            problem = None
+            try:
+                par = o.parent
+                kids = [k for k in (o.left, o.right) if k is not None]
+                if [id(k) for k in o.get_children()] != [id(k) for k in kids]:
+                    problem = "get_children"
+                elif o.is_leaf() != (not kids):
+                    problem = "is_leaf"
+                elif o.get_root() is not py:
+                    problem = "get_root"
+                elif par is None:
+                    if o.get_sibling() is not None:
+                        problem = "get_sibling of the root"
+                else:
+                    side = "left" if par.left is o else "right"
+                    other = par.right if side == "left" else par.left
+                    if par.get_side(o) != side:
+                        problem = "get_side"
+                    elif o.get_sibling() is not other:
+                        problem = "get_sibling"
+                    else:
+                        top = o
+                        while top.parent is not None and top.parent is not py:
+                            top = top.parent
+                        want_rs = "left" if py.left is top else "right"
+                        if o.get_root_side() != want_rs:
+                            problem = "get_root_side"
+            except Exception as e:  # noqa
+                problem = f"link query raised {type(e).__name__}"
+            if problem:
+                bad.append({"tree": core.tuple_str(t), "query": problem + " (expression classes)", "node": str(o)})
                 break
     # find_id / to_list of the real expression classes vs the model's findId / toList
     for (tt, rv, i, idx, lst), a in zip(fmeta, drv.ask(flines)):
